@@ -8,6 +8,7 @@ package main
 import (
 	"errors"
 	"fmt"
+	"os"
 	"strings"
 
 	"github.com/whoisnian/glb/util/ioutil"
@@ -46,9 +47,11 @@ func (u *underSW) WriteString(s string) (int, error) { u.viaSW++; return u.do(le
 
 const payload = "abcd"
 
+var maxCalls = 3
+
 func body(withConsumer, withClose bool) func(c *vsched.Ctx) {
 	return func(c *vsched.Ctx) {
-		ncalls := vsched.Choose(4, "number-of-calls")
+		ncalls := vsched.Choose(maxCalls+1, "number-of-calls")
 		sw := vsched.Choose(2, "underlying-has-WriteString")
 		kinds := make([]int, ncalls) // 0 Write, 1 WriteString
 		script := make([]int, ncalls)
@@ -168,6 +171,11 @@ func body(withConsumer, withClose bool) func(c *vsched.Ctx) {
 }
 
 func main() {
+	for _, a := range os.Args {
+		if a == "thorough" {
+			maxCalls = 4 // 1 + 6 + 36 + 216 + 1296 call sequences, times two kinds of wrapped writer
+		}
+	}
 	P := func(b ...int) sdrive.Plan { return sdrive.Plan{Bounds: b} }
 	scens := []sdrive.Scenario{
 		{Name: "writer+consumer+close", Props: []string{"C19"}, About: "all call sequences <= 3 x {Write,WriteString} x {full,short,fail} x {StringWriter or not}; consumer draining Status() at every possible pace; Close",
@@ -179,6 +187,6 @@ func main() {
 	}
 	sdrive.Main("model_checking", scens, []string{
 		"the status channel is a scheduler channel with Go's semantics (a non-blocking send succeeds only if a receiver is already parked)",
-		"call sequences are bounded to 3 calls of 4 bytes; the wrapped writer's behaviours are {full, short (n<len, nil), failing (1, err)}",
+		"call sequences are bounded to 3 (thorough: 4) calls of 4 bytes; the wrapped writer's behaviours are {full, short (n<len, nil), failing (1, err)}",
 	})
 }
